@@ -100,6 +100,7 @@ func pubsubConc(seed int64, rounds int, want map[string]bool, enc *json.Encoder)
 		rep := concReport{Scenario: "pubsub", Seed: seed + int64(r), Goroutines: 3 + 4 + 2, Shards: 1024}
 		config.Configures.ShardNum = 1024
 		mgr := server.NewManager(config.Configures)
+		psBegin(mgr.CurrentDB, true)
 		ctx, cancel := context.WithCancel(context.Background())
 		const nsub, npub, nmsg = 3, 4, 25
 		subs := make([]*sconn, nsub)
@@ -258,7 +259,35 @@ func pubsubConc(seed int64, rounds int, want map[string]bool, enc *json.Encoder)
 		for _, s := range subs {
 			s.c.Close()
 		}
+		psFinish(&rep, r == 0)
 		enc.Encode(rep)
+	}
+}
+
+// psFinish closes the lock-trace recording of a pubsub scenario round: a trace that is not a run of the model's operation automaton
+// overrides an "ok" (result "locktrace"); with control set the negative control of the checker is run too.
+// the stress loops on the table feed the automaton during their first psTraceRounds rounds
+const psTraceRounds = 1000
+
+func psFinish(rep *concReport, control bool) {
+	n, why := psEnd()
+	rep.TraceEvents = n
+	if tr := psTraces(); len(tr) > 0 {
+		rep.Traces = tr
+	}
+	if rep.Result == "stuck" {
+		return // wedged goroutines hold locks: the trace cannot be quiescent, the watchdog's report stands
+	}
+	if why != "" && rep.Result == "ok" {
+		rep.Result, rep.Detail = "locktrace", "hook H2b lock/access trace is not a run of the model's operation automaton (PSC, Conc/PubSubConc.lean): "+why
+	}
+	if control {
+		if c := psNegativeControl(); c != "" && rep.Result == "ok" {
+			rep.Result, rep.Detail = "locktrace", c
+		}
+	}
+	if n == 0 && rep.Result == "ok" {
+		rep.Result, rep.Detail = "locktrace", "no hook H2b event was recorded: the verifChanEvent calls in memdb/pubsub_struct.go are gone or the build tag is off"
 	}
 }
 
@@ -274,6 +303,7 @@ func pubsubHandover(seed int64, rounds int, want map[string]bool, enc *json.Enco
 		rep := concReport{Scenario: "pubsub-handover", Seed: seed + int64(r), Goroutines: 3, Shards: 1024}
 		config.Configures.ShardNum = 1024
 		mgr := server.NewManager(config.Configures)
+		psBegin(mgr.CurrentDB, false)
 		ctx, cancel := context.WithCancel(context.Background())
 		pub := newSconn(ctx, mgr)
 		rng := rand.New(rand.NewSource(seed + int64(r)))
@@ -339,6 +369,9 @@ func pubsubHandover(seed int64, rounds int, want map[string]bool, enc *json.Enco
 			lost, first := 0, -1
 			const apiRounds = 30000
 			for i := 0; i < apiRounds; i++ {
+				if i == psTraceRounds {
+					psPause() // between rounds nothing is in flight
+				}
 				ca, sa := net.Pipe()
 				cb, sb := net.Pipe()
 				var gotB atomic.Bool
@@ -382,6 +415,7 @@ func pubsubHandover(seed int64, rounds int, want map[string]bool, enc *json.Enco
 					"counted / not reached by the next Send (it joined while the previous last subscriber of the channel left)", lost, apiRounds, first)
 			}
 		}
+		psFinish(&rep, false)
 		enc.Encode(rep)
 	}
 }
@@ -401,17 +435,39 @@ func pubsubPrune(seed int64, rounds int, want map[string]bool, enc *json.Encoder
 		rep := concReport{Scenario: "pubsub-prune", Seed: seed + int64(r), Goroutines: 16, Shards: 1024}
 		config.Configures.ShardNum = 1024
 		mgr := server.NewManager(config.Configures)
+		psBegin(mgr.CurrentDB, false)
 		tab := mgr.CurrentDB.SubChans
 		const workers, perWorker = 8, 2500
 		var bad atomic.Value
 		var ops atomic.Int64
 		var wg sync.WaitGroup
+		// the first tracedPer iterations of every worker run with the lock-trace automaton on; the workers then meet at a barrier
+		// (nothing in flight), tracing is paused, and the stress continues
+		const tracedPer = 100
+		var barrier sync.WaitGroup
+		barrier.Add(workers)
+		paused := make(chan struct{})
+		go func() { barrier.Wait(); psPause(); close(paused) }()
 		for w := 0; w < workers; w++ {
 			wg.Add(1)
 			go func(w int) {
 				defer wg.Done()
 				ch := fmt.Sprintf("prune-%d", w)
+				atBarrier := false
+				defer func() {
+					if !atBarrier {
+						barrier.Done()
+					}
+				}()
 				for i := 0; i < perWorker && bad.Load() == nil; i++ {
+					if i == tracedPer {
+						atBarrier = true
+						barrier.Done()
+						select {
+						case <-paused:
+						case <-time.After(30 * time.Second): // another worker is wedged: the watchdog below reports it
+						}
+					}
 					// a subscriber that is already gone
 					ca, sa := net.Pipe()
 					tab.Subscribe(ch, sa)
@@ -465,9 +521,68 @@ func pubsubPrune(seed int64, rounds int, want map[string]bool, enc *json.Encoder
 			rep.Detail = fmt.Sprintf("after %d operations PUBLISH and SUBSCRIBE on channels whose only subscriber was dead block one another for ever (no progress for 25 s)\n%s", ops.Load(), buf[:n])
 		}
 		rep.Ops = int(ops.Load())
+		psFinish(&rep, false)
 		enc.Encode(rep)
 		if rep.Result == "stuck" {
 			return
 		}
 	}
+}
+
+// paths scenario (C19, lock-trace tie): every code path of Subscribe / UnSubscribe / Send / PUBLISH once, sequentially, with the
+// lock-trace automaton on: create + join, re-subscribe (scan only), join an existing channel, PUBLISH with receivers, PUBLISH to an
+// absent channel, PUBLISH that prunes a dead connection, PUBLISH that prunes the last one (0 receivers, channel still in the table),
+// UnSubscribe leaving others, UnSubscribe of an absent channel, the last UnSubscribe (drops the channel).  Deterministic: a lock that
+// is moved, dropped, taken in another mode or another order, or a new access path to the table or a conns map (for instance a
+// Release(key) called by PUBLISH) changes the event sequence of one of these paths on EVERY run.  All automaton states must be visited.
+func pubsubPaths(seed int64, want map[string]bool, enc *json.Encoder) {
+	if !want["all"] && !want["pubsub"] {
+		return
+	}
+	rep := concReport{Scenario: "pubsub-paths", Seed: seed, Goroutines: 1, Shards: 1024}
+	config.Configures.ShardNum = 1024
+	mgr := server.NewManager(config.Configures)
+	psBegin(mgr.CurrentDB, true)
+	tab := mgr.CurrentDB.SubChans
+	ca, sa := net.Pipe()
+	cb, sb := net.Pipe()
+	go func() { io.Copy(io.Discard, ca) }()
+	go func() { io.Copy(io.Discard, cb) }()
+	var got []string
+	idA := tab.Subscribe("paths", sa)
+	idA2 := tab.Subscribe("paths", sa)
+	idB := tab.Subscribe("paths", sb)
+	o, _ := runCmd(mgr, "PUBLISH", "paths", "x")
+	got = append(got, o)
+	o, _ = runCmd(mgr, "PUBLISH", "paths-absent", "x")
+	got = append(got, o)
+	cb.Close()
+	sb.Close()
+	o, _ = runCmd(mgr, "PUBLISH", "paths", "y")
+	got = append(got, o)
+	tab.UnSubscribe("paths", idB)
+	tab.UnSubscribe("paths-absent", "no-such-id")
+	ca.Close()
+	sa.Close()
+	o, _ = runCmd(mgr, "PUBLISH", "paths", "z")
+	got = append(got, o)
+	tab.UnSubscribe("paths", idA)
+	o, _ = runCmd(mgr, "PUBLISH", "paths", "w")
+	got = append(got, o)
+	rep.Ops = 13
+	wantOut := []string{":2\r\n", ":0\r\n", ":1\r\n", ":0\r\n", ":0\r\n"}
+	rep.Result = "ok"
+	if idA2 != idA {
+		rep.Result, rep.Detail = "invariant", "subscribing again on the same connection returned another subscription id"
+	}
+	for i := range wantOut {
+		if got[i] != wantOut[i] && rep.Result == "ok" {
+			rep.Result, rep.Detail = "invariant", fmt.Sprintf("PUBLISH #%d of the path scenario replied %q, expected %q (2 subscribers; absent channel; one dead subscriber pruned; last one pruned; channel dropped)", i, got[i], wantOut[i])
+		}
+	}
+	psFinish(&rep, true)
+	if un := psUnvisited(); len(un) > 0 && rep.Result == "ok" {
+		rep.Result, rep.Detail = "locktrace", fmt.Sprintf("the path scenario never reached the automaton state(s) %q: a hook H2b call or a code path of the model is gone", un)
+	}
+	enc.Encode(rep)
 }
